@@ -734,6 +734,8 @@ pub struct World {
     /// a contract account used as an ordinary user / receiver
     pub hostile: Addr,
     pub reject_all: Addr,
+    /// a plain account the owners may name as fee collector instead of the fee-collector contract
+    pub fc2: Addr,
     pub pm: Addr,
     pub fm: Addr,
     pub em: Addr,
@@ -759,6 +761,7 @@ impl World {
         // the account that deploys (instantiates) the contracts that name their owner in the
         // instantiate message; it must end up with no rights at all
         let deployer = api.addr_make("deployer");
+        let api_fc2 = api.addr_make("fee_collector_2");
         let users: Vec<Addr> = (0..cfg.n_users)
             .map(|i| api.addr_make(&format!("user{i}")))
             .collect();
@@ -954,6 +957,7 @@ impl World {
             users,
             hostile,
             reject_all,
+            fc2: api_fc2,
             pm,
             fm,
             em,
@@ -1145,6 +1149,7 @@ impl World {
         v.push(self.owner.clone());
         v.push(self.hostile.clone());
         v.push(self.reject_all.clone());
+        v.push(self.fc2.clone());
         v.push(self.pm.clone());
         v.push(self.fm.clone());
         v.push(self.em.clone());
@@ -1170,6 +1175,9 @@ impl World {
         }
         if a == self.hostile.as_str() {
             return "contract_user".into();
+        }
+        if a == self.fc2.as_str() {
+            return "fee_collector_2".into();
         }
         if a == self.reject_all.as_str() {
             return "reject_all".into();
